@@ -2,6 +2,7 @@
   Basic lemmas about the forest primitives: handles under `mapAt`/`setValue`, the empty store.
 -/
 import XotModel.Model.ForestInv
+import XotModel.Lemmas.SelfMergeBridge
 
 namespace XotModel
 open HTree
